@@ -150,3 +150,12 @@ Proof.
   cbn zeta. eexists. split; [vm_compute; reflexivity|]. split; [vm_compute; reflexivity|]. split; [vm_compute; reflexivity|].
   split; [|vm_compute; reflexivity]. unfold layered. repeat constructor.
 Qed.
+
+(** Every segment of a path is looked up as it stands, the empty one included: `${cfg:}` is the member of
+    `cfg` with the empty name (evaluated in the kernel; an error naming the key '' when there is none). *)
+Example C03_empty_segment_nonvacuous :
+  let cfg v := mk_entry (VStr "cfg") (VMap v) false false in
+  (exists s, interp 40 [cfg [mk_entry (VStr "x") (VNum (NInt 1)) false false; mk_entry (VStr "") (VNum (NInt 5)) false false]] (VStr "${cfg:}") st0
+             = Ok (VNum (NInt 5), s)) /\
+  interp 40 [cfg [mk_entry (VStr "x") (VNum (NInt 1)) false false]] (VStr "${cfg:}") st0 = Err (EMissingKey "cfg:" "" "").
+Proof. cbn zeta. split; [eexists; vm_compute; reflexivity | vm_compute; reflexivity]. Qed.
